@@ -200,8 +200,10 @@ func explodeNode(node *CandidateNode, context Context) error {
 			node.AddChildren(node.Alias.Content)
 			node.Value = node.Alias.Value
 			node.Alias = nil
+			log.Debug("now I'm %v", NodeToString(node))
+			// what the alias stood for may hold aliases, anchors and merge keys of its own
+			return explodeNode(node, context)
 		}
-		log.Debug("now I'm %v", NodeToString(node))
 		return nil
 	case MappingNode:
 		// //check the map has an alias in it
